@@ -83,6 +83,33 @@ func Share(n int) int {
 	return k
 }
 
+// Shuffled returns k permutations of 0..n-1, a pure function of the run's seed, the shard and salt (splitmix64 +
+// Fisher-Yates). Checks use it to re-evaluate a dense window of already swept inputs in scrambled order: the oracle is
+// the same, only the order of the questions is new (a memo keyed on too little answers the neighbour's question).
+func Shuffled(n, k int, salt uint64) [][]int {
+	x := Seed*0x9E3779B97F4A7C15 + uint64(Shard)*0xBF58476D1CE4E5B9 + salt
+	next := func() uint64 {
+		x += 0x9E3779B97F4A7C15
+		z := x
+		z = (z ^ (z >> 30)) * 0xBF58476D1CE4E5B9
+		z = (z ^ (z >> 27)) * 0x94D049BB133111EB
+		return z ^ (z >> 31)
+	}
+	out := make([][]int, k)
+	for i := range out {
+		p := make([]int, n)
+		for j := range p {
+			p[j] = j
+		}
+		for j := n - 1; j > 0; j-- {
+			r := int(next() % uint64(j+1))
+			p[j], p[r] = p[r], p[j]
+		}
+		out[i] = p
+	}
+	return out
+}
+
 // Zones are the process time zones the shards run under.
 var Zones = []string{"UTC", "Asia/Shanghai", "America/New_York", "Australia/Lord_Howe", "Europe/London", "America/Sao_Paulo"}
 
